@@ -10,6 +10,7 @@ import IsoVerif.Lemmas.BinSearch
 import IsoVerif.Lemmas.Lists
 import IsoVerif.Lemmas.Jaccard
 import IsoVerif.Lemmas.Merge
+import IsoVerif.Lemmas.BinSearchRev
 
 namespace IsoVerif.Props.C19Lists
 open IsoVerif.Gen IsoVerif.Model IsoVerif.Lemmas
@@ -154,5 +155,25 @@ theorem bin_search_last (l : List Iv) (pos : Int) (f tl : Iv) (hf : l.head? = so
   simp [this, h2]; omega
 
 example : intervalBinSearch [(1, 5), (10, 12), (20, 30), (40, 41), (50, 60)] 11 = some 1 := by decide
+
+/-- mirror search (`interval_bin_search_rev`): for strictly increasing ends a position in `(l[t].2, l[t+1].2]`
+    is found at index `t + 1`; the loop terminates, and Python's silent `l[-1]` wrap at index 0 is harmless -/
+theorem bin_search_rev_spec (l : List Iv) (pos : Int) (hinc : StrictInc (l.map (fun r => r.2 + 1)))
+    (f tl : Iv) (hf : l.head? = some f) (ht : l.getLast? = some tl)
+    (t : Nat) (a b : Iv) (hta : l[t]? = some a) (htb : l[t + 1]? = some b)
+    (hpa : a.2 < pos) (hpb : pos ≤ b.2) (hin : f.1 ≤ pos) :
+    intervalBinSearchRev l pos = some ((t : Int) + 1) :=
+  bin_search_rev_aux l pos hinc f tl hf ht t a b hta htb hpa hpb hin
+
+theorem bin_search_rev_outside (l : List Iv) (pos : Int) (f tl : Iv) (hf : l.head? = some f) (ht : l.getLast? = some tl)
+    (hout : pos > tl.2 ∨ pos < f.1) : intervalBinSearchRev l pos = some (-1) := by
+  simp [intervalBinSearchRev, hf, ht, hout]
+
+theorem bin_search_rev_first (l : List Iv) (pos : Int) (f tl : Iv) (hf : l.head? = some f) (ht : l.getLast? = some tl)
+    (h1 : f.1 ≤ pos) (h2 : pos ≤ f.2) (h3 : pos ≤ tl.2) : intervalBinSearchRev l pos = some 0 := by
+  have : ¬ (tl.2 < pos ∨ pos < f.1) := by omega
+  simp [intervalBinSearchRev, hf, ht, this, h2]
+
+example : intervalBinSearchRev [(1, 5), (10, 12), (20, 30), (40, 41), (50, 60)] 35 = some 3 := by decide
 
 end IsoVerif.Props.C19Lists
